@@ -95,6 +95,13 @@ func c05Call(schema *jsonapi.Schema, f func() (any, error), observe func(any) (s
 		}
 		return r
 	}
+	if isNilIface(res) {
+		switch res.(type) {
+		case jsonapi.Identifiers: // returned by value: an empty list is a result
+		default:
+			return c05Result{obs: oC("neither"), both: true}
+		}
+	}
 	o, off := observe(res)
 	return c05Result{obs: oOk(o), offSch: off}
 }
@@ -304,6 +311,39 @@ func c05PayloadOn(c *ctx, sc schemaSpec, schema *jsonapi.Schema, payload string,
 	k.Replay = how
 }
 
+func c05BigBody(c *ctx, sc schemaSpec, body string) {
+	schema := sc.build()
+	var key, detail string
+	for _, mu := range [][2]string{{http.MethodPost, "/alltypes"}, {http.MethodPatch, "/alltypes/x1"}} {
+		r := c05Call(schema, func() (any, error) {
+			return jsonapi.NewRequest(httptest.NewRequest(mu[0], mu[1], strings.NewReader(body)), schema)
+		}, func(v any) (string, string) {
+			req := v.(*jsonapi.Request)
+			off := ""
+			if req.Doc != nil {
+				for _, r := range docResources(req.Doc) {
+					if mm := onSchema(schema, r); mm != "" {
+						off = mm
+					}
+				}
+			}
+			return oC("request"), off
+		})
+		switch {
+		case key != "":
+		case r.panicked:
+			key, detail = "unmarshal-panics", fmt.Sprintf("NewRequest(%s %s): %v", mu[0], mu[1], r.panicVal)
+		case r.both:
+			key, detail = "result-and-error", fmt.Sprintf("NewRequest(%s %s) with a %d-byte body: %s", mu[0], mu[1], len(body), r.obs)
+		case r.offSch != "":
+			key, detail = "off-schema-result", r.offSch
+		}
+	}
+	c.count("how:big-body")
+	k := c.add("bytes", fmt.Sprintf("%.60s... (%d bytes)", body, len(body)), "big-body", false, oL(nil), oL(nil), key, detail)
+	k.Replay = "big-body"
+}
+
 // payloads naming a type that was removed from the schema / added to it after
 // the schema had already been used
 func runC05Edited(c *ctx) {
@@ -389,6 +429,8 @@ func runC05(c *ctx) {
 	for _, t := range []string{`[null]`, `null`, `[]`, `{}`, `{"id":"1","type":"other"}`, `{"id":"1","type":"zz"}`, `{"id":"","type":"other"}`, `{"ID":"1","TYPE":"other"}`,
 		`[{"id":"1","type":"other"},null]`, `[{"id":"1","type":"other"},{"id":"2","type":"alltypes"}]`, `[{"id":"1","type":"other"},{"id":"2","type":"zz"}]`, `[{"id":"1","type":"other"},{"id":"2","type":""}]`, `[{"id":"1","type":"other"},{"id":"","type":"other"}]`, `[{"id":1}]`, `"x"`, `5`, `[5]`, `{"id":null,"type":null}`,
 		`{"data":[null]}`, `{"data":null,"included":[null]}`, `{"data":{"id":"1","type":"other"},"included":[5]}`, `{"errors":[null,{"id":5}]}`, `{"errors":[{"links":{"a":null}}]}`,
+		`{"data":{"id":"1","type":"other","attributes":{"title":"a"}},"errors":[{"status":"400","title":"Bad Request"}]}`, `{"errors":[{"status":"500"}],"data":null,"meta":{"k":1}}`,
+		`{"data":[{"id":"1","type":"other"}],"errors":[]}`, `{"data":{"id":" 1 ","type":"other"}}`,
 		`{"data":"x"}`, `{"data":5}`, `{"data":true}`, `{"meta":5}`, `{"data":[{"id":"1","type":"other"}],"data":null}`} {
 		c05Payload(c, sc, t, "corpus")
 	}
@@ -406,6 +448,14 @@ func runC05(c *ctx) {
 	c05Payload(c, d.sc, strings.Repeat("[", 10001)+strings.Repeat("]", 10001), "deep-nesting")
 	c05Payload(c, d.sc, strings.Repeat(`{"data":`, 3000)+"null"+strings.Repeat("}", 3000), "deep-nesting")
 	c05Payload(c, d.sc, `{"data":{"id":"1","type":"alltypes","attributes":{"int":1`+strings.Repeat("0", 400)+`}}}`, "huge-number")
+	// bodies above a megabyte: oracle only (result xor error, no panic, on-schema)
+	for _, body := range []string{
+		`{"data":{"id":"x1","type":"alltypes","attributes":{"string":"` + strings.Repeat("a", 1<<20+1) + `"}}}`,
+		strings.Repeat("a", 1<<20+1),
+		`{"data":{"id":"x1","type":"alltypes"},"meta":{"pad":"` + strings.Repeat(" ", 3<<20) + `"}}`,
+	} {
+		c05BigBody(c, d.sc, body)
+	}
 	for i := 0; i < n; i++ {
 		b := make([]byte, c.r.intn(40))
 		for j := range b {
